@@ -12,8 +12,11 @@ ASSUMPTIONS = [
     'sequentially consistent interleaving at the granularity of the model steps (one atomic access / one critical section per step)',
     'std::condition_variable::wait does not wake up spuriously in the monitored runs (the model allows it; the '
     'body-on-suspended-PU monitor assumes it does not happen)',
-    'pending and staged queues of all priorities of one worker are one FIFO in the model; accepted suspend/resume calls come '
-    'from OS threads or tasks of other pools (tasks of the pool itself only for the refused calls)',
+    'the model has the staged/pending split of every queue and the pool-wide low-priority queue (converted by the last worker only, '
+    'popped by any running worker, counted in the last worker\'s get_queue_length); the high-priority queue of a worker is merged with '
+    'its normal queue; thread-count limits of add_new (max_thread_count) and the idle-loop threshold for stealing staged tasks are '
+    'not modelled (batch size and victim are oracle choices); accepted suspend/resume calls come from OS threads or tasks of other '
+    'pools (tasks of the pool itself only for the refused calls)',
     'threads_[i].joinable() is true for every worker (no add/remove_processing_unit in the histories)',
 ]
 
@@ -155,6 +158,11 @@ def run(ctx):
         concs = ['CONC c%d %d %d %d %d' % (k, rng.randrange(1, 1 << 30), rng.randint(2, 4), rng.randint(10, 40), k % 3 == 2)
                  for k in range(nconc)] if True else []
         lowp = ['LOWP p1'] if el and pol.startswith('local_priority') else []
+        if lowp:
+            # the model's prediction for the low-priority scenario (the schedule of Proofs.lowprio_suspend_stuck_refuted)
+            for x in model_run(drv, ['IN LOWP p1 %s n=30' % cfgs]):
+                p = x.split(' ', 3)
+                expect[('LOWP', p[2])] = p[3]
         allcases = gates + cases + concs + lowp
         if replay_case is not None:
             k0 = replay_case.split(' ')[0]
@@ -256,6 +264,17 @@ def run(ctx):
                 r.sample({'config': cfgs + ' ' + pol, 'history': f[2], 'observed': got})
             elif f[0] == 'LOWP':
                 r.nontrivial('%s %s lowp' % (cfgs, pol))
+                want = expect.get(key)
+                got = o.split(' all=')[0]
+                if want is None:
+                    r.hits.append(Hit('tie', 'C19:model_driver', 'no model prediction for the LOWP case', rep))
+                elif kvs.get('reached') == '1':
+                    # the last worker was parked in its idle branch while the tasks were staged and the suspend CAS happened:
+                    # the run follows the model schedule and is compared verbatim (returned, done_then, states, no_progress)
+                    r.traces += 1
+                    if want != got:
+                        r.hits.append(Hit('corr', 'C19:lowp:correspondence', 'low-priority suspend scenario (%s %s): implementation [%s] model [%s]'
+                                          % (cfgs, pol, got, want), dict(rep, impl=got, model=want)))
                 if kvs.get('returned') != '1':
                     r.hits.append(Hit('monitor', 'C19:suspend_pu_blocked_by_low_priority_tasks',
                                       'suspend_processing_unit_direct(last worker) did not return within 3 s while low-priority tasks were staged: '
